@@ -1,16 +1,49 @@
 (* Model/C17Run.v - case type and checker evaluated on harness-generated cases (C17) *)
-From ReqV Require Export Lib.Bytes Model.Form Model.ReqBody.
+From ReqV Require Export Lib.Bytes Lib.PackedBytes Model.Form Model.Multipart Model.ReqBody Model.Progress.
+
+Record body_obs := {
+  o_arrived : bool;                     (* the origin's handler ran *)
+  o_err : bool;                         (* the client reported an error *)
+  o_ct : bytes;                         (* Content-Type seen by the origin *)
+  o_body : bytes;                       (* body bytes seen by the origin *)
+  o_marshal : option marshaller;        (* body = reference xml / json marshalling of the value *)
+  o_parts : option (list part_view)     (* what mime/multipart's Reader yields (bodies left out) *)
+}.
 
 Inductive c17_case :=
 | EscCase (s obs : bytes)                                   (* url.QueryEscape *)
 | UnescCase (s : bytes) (obs : option bytes)                (* url.QueryUnescape *)
 | ParseQueryCase (s : bytes) (obs : form) (obs_err : bool)  (* url.ParseQuery, keys sorted *)
-| FormCase (rf cf : form) (ordered : list bytes)
-           (arrived err : bool) (obs_ct obs_body : bytes).  (* end to end, at the origin *)
+| QuoteCase (s obs_q obs_e : bytes)                         (* fmt %q ; multipart escapeQuotes *)
+| BoundaryCase (b : bytes) (obs_valid : bool) (obs_ct : bytes) (obs_back : option bytes)
+| BodyCase (q : breq) (tbl : list (bytes * bytes)) (o : body_obs)   (* end to end, at the origin *)
+| WriterCase (total interval t0 : Z) (evs : list (Z * Z)) (obs : list Z)
+| ReaderCase (interval t0 : Z) (evs : list (Z * bool * Z)) (obs : list Z)
+| WriterAnyClock (total : Z) (ns : list Z) (obs : list Z)
+| ReaderAnyClock (ns : list Z) (obs : list Z).
 
 Definition entry_eqb (a b : bytes * list bytes) : bool :=
   bytes_eqb (fst a) (fst b) && list_eqb bytes_eqb (snd a) (snd b).
 Definition form_eqb (a b : form) : bool := list_eqb entry_eqb a b.
+
+Definition tbl_sniff (tbl : list (bytes * bytes)) (s : bytes) : bytes :=
+  match assoc s tbl with Some v => v | None => bs "?not-in-sniff-table" end.
+
+Definition view_eqb (a b : part_view) : bool :=
+  opt_bytes_eqb (v_name a) (v_name b) && opt_bytes_eqb (v_filename a) (v_filename b) &&
+  opt_bytes_eqb (v_ctype a) (v_ctype b) && bytes_eqb (v_body a) (v_body b).
+Definition strip_body (v : part_view) : part_view :=
+  {| v_name := v_name v; v_filename := v_filename v; v_ctype := v_ctype v; v_body := [] |}.
+
+Definition marshaller_eqb (a b : marshaller) : bool :=
+  match a, b with MJson, MJson | MXml, MXml => true | _, _ => false end.
+
+Definition preset_ct (q : breq) : bytes := match q_rct q with [] => q_cct q | c => c end.
+
+Definition zlist_eqb (a b : list Z) : bool := list_eqb Z.eqb a b.
+
+Definition last_is (l : list Z) (x : Z) : bool :=
+  match rev l with y :: _ => Z.eqb y x | [] => false end.
 
 Definition c17_check (c : c17_case) : bool :=
   match c with
@@ -19,10 +52,51 @@ Definition c17_check (c : c17_case) : bool :=
   | ParseQueryCase s f e =>
       let '(ps, e') := parse_query s in
       form_eqb (sort_form (group_pairs ps)) f && Bool.eqb e' e
-  | FormCase rf cf ord arrived err ct body =>
-      match form_plan_of rf cf ord with
-      | FBody b => arrived && negb err && bytes_eqb ct form_ct && bytes_eqb body b
-      | FBadOrdered => arrived && negb err && bytes_eqb ct form_ct && bytes_eqb body []
-      | FNone => true
+  | QuoteCase s q e => bytes_eqb (go_quote s) q && bytes_eqb (escape_quotes s) e
+  | BoundaryCase b v ct back =>
+      Bool.eqb (valid_boundary b) v &&
+      (if v then bytes_eqb (form_data_content_type b) ct &&
+                 opt_bytes_eqb (parse_boundary_param ct) back else true)
+  | BodyCase q tbl o =>
+      let sniff := tbl_sniff tbl in
+      match plan_of sniff q with
+      | PNone => o_arrived o && negb (o_err o) && bytes_eqb (o_body o) []
+      | PError => o_err o
+      | PBody ct body =>
+          o_arrived o && negb (o_err o) && bytes_eqb (o_ct o) ct && bytes_eqb (o_body o) body &&
+          (if q_multipart q then
+             key_order_ok q &&
+             let b := effective_boundary (q_custom_boundary q) (q_random_boundary q) in
+             match o_parts o with
+             | None => true
+             | Some ps =>
+                 (* the specification-level reader agrees with mime/multipart on the part list
+                    and returns the supplied fields and files *)
+                 match parse_form_parts b (o_body o) with
+                 | Some vs =>
+                     list_eqb view_eqb (map strip_body vs) ps &&
+                     list_eqb view_eqb vs
+                       (map field_view (multipart_fields q) ++ map (file_view sniff) (q_files q))
+                 | None => false
+                 end
+             end
+           else true)
+      | PMarshal m ct =>
+          o_arrived o && negb (o_err o) &&
+          match o_marshal o with Some m' => marshaller_eqb m m' | None => false end &&
+          bytes_eqb (o_ct o) (match ct with Some c => c | None => preset_ct q end)
+      | PRaw b detect =>
+          o_arrived o && negb (o_err o) && bytes_eqb (o_body o) b &&
+          (if detect then true else bytes_eqb (o_ct o) (preset_ct q))
       end
+  | WriterCase total interval t0 evs obs =>
+      zlist_eqb (run_writer total interval (w0 t0) evs) obs
+  | ReaderCase interval t0 evs obs =>
+      zlist_eqb (run_reader interval (r0 t0) evs) obs
+  | WriterAnyClock total ns obs =>
+      subseq obs (running 0 ns) &&
+      (if existsb (Z.eqb total) (running 0 ns) then existsb (Z.eqb total) obs else true)
+  | ReaderAnyClock ns obs =>
+      subseq obs (running 0 ns) &&
+      (match rev (running 0 ns) with t :: _ => last_is obs t | [] => match obs with [] => true | _ => false end end)
   end.
